@@ -165,6 +165,10 @@ struct View {
     mcfg: bool,
     sid: u64,
     slim: Option<u64>,
+    /// monitors only (never sent to the model): what the list-based tiered whitelist's OWN per-stage state says about the
+    /// sender in the stage the mint will be booked under (`StageMemberInfo{stage_id: sid-1}`; time-independent, unlike
+    /// `Config{}` / `HasMember{}` which go through the "active stage" helpers)
+    stage_ent: Option<u64>,
 }
 
 // ------------------------------------------------------------------------------------------------ the SUT
@@ -196,6 +200,9 @@ struct S {
     pending: Option<(String, String)>,
     /// discovered pairing table (mk idx, wl idx) -> level, filled by `compat` lines
     table: BTreeMap<(usize, usize), u64>,
+    /// successful tiered-whitelist mints at which the active-stage view (Config/HasMember) and the booked stage's own
+    /// record (StageMemberInfo) named different entitlements (diagnostic; the monitor uses the smaller one)
+    mon_incoherent: u64,
 }
 
 fn jn(v: &Value) -> Option<u64> {
@@ -204,7 +211,7 @@ fn jn(v: &Value) -> Option<u64> {
 
 impl S {
     fn new() -> S {
-        S { w: None, univ: vec![], wls: BTreeMap::new(), minter: None, mon: Mon::default(), minted_ids: BTreeSet::new(), pending: None, table: BTreeMap::new() }
+        S { w: None, univ: vec![], wls: BTreeMap::new(), minter: None, mon: Mon::default(), minted_ids: BTreeSet::new(), pending: None, table: BTreeMap::new(), mon_incoherent: 0 }
     }
     fn world(&mut self) -> &mut World {
         self.w.as_mut().expect("case not begun")
@@ -280,6 +287,11 @@ impl S {
         v.sid = w.query(wa, &json!({"active_stage_id":{}})).ok().and_then(|r| jn(&r)).unwrap_or(0);
         if v.sid >= 1 {
             v.slim = w.query(wa, &json!({"stage":{"stage_id": v.sid - 1}})).ok().and_then(|r| jn(&r["stage"]["mint_count_limit"]));
+            if let Ok(r) = w.query(wa, &json!({"stage_member_info":{"stage_id": v.sid - 1, "member": addr(sender)}})) {
+                if let Some(m) = r["is_member"].as_bool() {
+                    v.stage_ent = Some(if m { jn(&r["per_address_limit"]).unwrap_or(0) } else { 0 });
+                }
+            }
         }
         v
     }
@@ -615,7 +627,13 @@ impl S {
                 *n += 1;
                 let n = *n;
                 // entitlement in force, read from the whitelist's own state (never from the message)
-                let ent: u64 = if is_flex_wl(wk) {
+                // per stage for tiered whitelists: the entitlement is the one of the stage the mint is BOOKED under
+                // (a member of stage k only, minting while the whitelist reports stage j's limit, is entitled to stage k's)
+                let ent: u64 = if let (true, Some(se)) = (matches!(wk, WlKind::Tiered | WlKind::TieredFlex), v.stage_ent) {
+                    let act = if is_flex_wl(wk) { if v.mem { v.mcnt } else { 0 } } else if v.mem { v.wlim } else { 0 };
+                    if act != se { self.mon_incoherent += 1; }
+                    se
+                } else if is_flex_wl(wk) {
                     if v.mem { v.mcnt } else { 0 }
                 } else if is_merkle_wl(wk) {
                     self.tree_allocation(wlid, v.sid, sender, v.wlim).unwrap_or(0)
@@ -1078,10 +1096,15 @@ fn gen_wlop(ses: &mut Session, sut: &mut S, rng: &mut Rng, plan: &Plan) {
 }
 
 fn gen_mint(ses: &mut Session, sut: &mut S, rng: &mut Rng, plan: &Plan) {
+    gen_mint_as(ses, sut, rng, plan, None)
+}
+
+/// `who = Some(a)`: an honest, correctly funded mint attempt by `a` (its own leaf if it has one, no field mutation)
+fn gen_mint_as(ses: &mut Session, sut: &mut S, rng: &mut Rng, plan: &Plan, who: Option<u64>) {
     let mk = plan.mk;
-    let sender = if rng.chance(1, 12) { ADMIN } else { *rng.pick(&BUYERS) };
+    let sender = match who { Some(a) => a, None => if rng.chance(1, 12) { ADMIN } else { *rng.pick(&BUYERS) } };
     let price = sut.current_price().unwrap_or(PUBLIC_PRICE);
-    let funds = match rng.below(20) {
+    let funds = match if who.is_some() { 19 } else { rng.below(20) } {
         0 => price + 1,
         1 => price.saturating_sub(1),
         2 => 0,
@@ -1117,7 +1140,7 @@ fn gen_mint(ses: &mut Session, sut: &mut S, rng: &mut Rng, plan: &Plan) {
             }
         }
         // adversarial single-fault mutations of the message fields
-        match rng.below(16) {
+        match if who.is_some() { 15 } else { rng.below(16) } {
             0 | 1 => {
                 alloc = Some(alloc.unwrap_or(0) + rng.range(1, 5));
                 cls = "raise-alloc";
@@ -1145,7 +1168,7 @@ fn gen_mint(ses: &mut Session, sut: &mut S, rng: &mut Rng, plan: &Plan) {
             }
             _ => {}
         }
-    } else if rng.chance(1, 30) {
+    } else if who.is_none() && rng.chance(1, 30) {
         alloc = Some(5);
         cls = "unknown-field";
     }
@@ -1171,6 +1194,83 @@ fn gen_mint(ses: &mut Session, sut: &mut S, rng: &mut Rng, plan: &Plan) {
     ses.count(&format!("mintwhy:{phase}:{why}"));
     ses.count(&format!("mint:{phase}:{wlk}:{}", &out[..2]));
     ses.count(&format!("mintcls:{cls}:{phase}:{}", &out[..2]));
+}
+
+/// Stage hand-over: a tiered whitelist whose stages touch exactly (`stage[k+1].start == stage[k].end`), with different
+/// member sets and different per-address limits per stage; at every stage edge (-1 ns, the edge itself, +1 ns) every buyer
+/// tries more mints than any stage grants. This is where "which stage is in force" answers of the whitelist can disagree
+/// with each other, and the per-stage entitlement is what the property fixes.
+fn scenario_handover(ses: &mut Session, sut: &mut S, rng: &mut Rng, idx: u64, table: &BTreeMap<(usize, usize), u64>) {
+    // minters that can mint through some tiered whitelist kind
+    let cands: Vec<(MinterKind, WlKind)> = ALL_MINTERS
+        .iter()
+        .flat_map(|mk| [WlKind::Tiered, WlKind::TieredFlex, WlKind::TieredMerkle].into_iter().filter(move |wk| level(table, *mk, *wk) == 2).map(move |wk| (*mk, wk)))
+        .collect();
+    if cands.is_empty() {
+        return;
+    }
+    let (mk, wk) = cands[(idx as usize) % cands.len()];
+    let t0 = GENESIS + 1_000_000_000 + rng.below(1000) * U;
+    ses.begin_case(sut, &format!("case t0={t0} addrs={},{} sc=handover{idx} mk={}", ADMIN, fmt_list(&BUYERS), mk.name()));
+    let nst = rng.range(2, 3);
+    let mut stages = vec![];
+    let mut t = t0 + 10 * U;
+    // limits: strictly decreasing, strictly increasing or random — the decreasing shape is the dangerous one
+    let shape = rng.below(3);
+    for j in 0..nst {
+        let e = t + rng.range(2, 6) * U;
+        let pal = match shape { 0 => (nst - j) as u32, 1 => (j + 1) as u32, _ => rng.range(1, 3) as u32 };
+        // member sets: mostly disjoint across stages (buyer j+1.. only), sometimes overlapping
+        let mut members: Vec<(u64, u32)> = vec![];
+        for (k, b) in BUYERS.iter().enumerate() {
+            let inside = if rng.chance(1, 5) { rng.chance(1, 2) } else { (k as u64) % nst == j };
+            if inside {
+                let cnt = if is_flex_wl(wk) { pal } else if is_merkle_wl(wk) && rng.chance(1, 2) { pal } else { 0 };
+                members.push((*b, cnt));
+            }
+        }
+        if members.is_empty() {
+            members.push((BUYERS[j as usize % 4], if is_flex_wl(wk) { pal } else { 0 }));
+        }
+        stages.push(StageSpec { start: t, end: e, pal, mcl: if rng.chance(1, 4) { Some(rng.range(2, 5) as u32) } else { None }, members });
+        t = e; // exactly contiguous
+    }
+    let start = t + rng.range(0, 3) * U; // the public sale starts at or after the last stage end
+    let ls = wk == WlKind::TieredMerkle && rng.chance(1, 2);
+    let out = ses.step(sut, &format!("newwl id=0 kind={} admin=11 ml=10 price=60000000 ls={} stages={}", wl_idx(wk), ls as u8, fmt_stages(&stages)));
+    ses.mark(format!("handover:newwl:{:?}:{}", wk, &out[..2]));
+    let end = if mk.is_open_edition() { Some(start + 40 * U) } else { None };
+    let ntok: Option<u64> = Some(rng.range(10, 14));
+    let out = ses.step(sut, &format!("create mk={} wl=0 lim=3 ntok={} maxpal=5 admin={ADMIN} start={start} end={}", mk.idx(), fmt_opt(&ntok), fmt_opt(&end)));
+    ses.mark(format!("handover:create:{}:{:?}:{}", mk.name(), wk, &out[..2]));
+    if !out.starts_with("ok") {
+        ses.end_case();
+        return;
+    }
+    let mut instants = vec![start];
+    let plan = Plan { mk, wls: vec![(0, wk, stages.clone(), ls)], start, end, maxpal: 5, instants: instants.clone() };
+    let mut edges: Vec<u64> = stages.iter().flat_map(|s| [s.start, s.end]).collect();
+    edges.sort();
+    edges.dedup();
+    instants.extend(edges.iter().copied());
+    for e in edges {
+        for t in [e - 1, e, e + 1] {
+            if t <= sut.now() {
+                continue;
+            }
+            ses.step(sut, &format!("t {t}"));
+            let mut order = BUYERS.to_vec();
+            if rng.chance(1, 2) { order.reverse(); }
+            for b in order {
+                // a block may hold several transactions of the same sender: try to out-mint every stage's limit
+                for _ in 0..rng.range(2, 4) {
+                    gen_mint_as(ses, sut, rng, &plan, Some(b));
+                }
+            }
+            ses.mark(format!("handover:edge:{}:{:?}:{}", mk.name(), wk, if t < e { "before" } else if t == e { "at" } else { "after" }));
+        }
+    }
+    ses.end_case();
 }
 
 /// F-C03 regression corpus: a Merkle minter wired to a plain whitelist, member limit 1, self-declared allocation 5
@@ -1232,6 +1332,9 @@ fn main() {
     let n = ses.scale(400, 20000);
     for i in 0..n {
         scenario(&mut ses, &mut sut, &mut rng, i, &table);
+        if i % 5 == 0 {
+            scenario_handover(&mut ses, &mut sut, &mut rng, i / 5, &table);
+        }
     }
     if std::env::var("C03_DUMP").is_ok() {
         let mut out = String::new();
@@ -1243,5 +1346,6 @@ fn main() {
         std::fs::write(ses.args.out.join("trace.txt"), out).ok();
     }
     ses.note("buyers 21..24 + admin 10; limits 1..3 (max_per_address_limit 3..5); whitelist windows before / straddling the minter start; clock steps to every stage edge, start and end at -1/0/+1 ns; Merkle trees built with rs_merkle (sorted-pair sha256 / blake3-16), leaves stage‖sender‖allocation");
+    ses.note(format!("tiered-whitelist mints at which the active-stage view and the booked stage's own record named different entitlements: {} (expected 0 on a coherent whitelist; the over-entitlement monitor always uses the booked stage's own record)", sut.mon_incoherent));
     ses.finish(&mut sut);
 }
